@@ -1416,17 +1416,16 @@ Proof.
   destruct (pre_items_run C L pre [ILoop main] pstate0 ps1 (proj1 (conj (conj eq_refl (conj eq_refl (conj eq_refl eq_refl))) I)) (wf0 L) Hg E1)
     as [(Hnf1 & Hw1 & Hl1 & Hg1) Hsem1].
   cbn [fold_left step_items run_item] in Hrun. cbn [items_gd item_gd] in Hg1. apply andb_true_iff in Hg1 as [Hgm _].
-  cbn [p_loop pstate0] in Hl1. rewrite Hl1 in Hrun, Hgm.
-  destruct (run_block fenv (call_dyn C) C (p_fe ps1) (mk_bstate (p_ctx ps1) [] (mk_acc (p_labels ps1) [] false)) main)
+  cbn [p_loop pstate0] in Hl1.
+  destruct (run_block fenv (call_dyn C) C (p_fe ps1) (mk_bstate (p_ctx ps1) (p_globals ps1) (mk_acc (p_labels ps1) [] false)) main)
     as [[fe2 st2]|] eqn:E2; [|discriminate].
   destruct (fe_err fe2); [discriminate|]. inversion Hrun; subst ps. clear Hrun.
-  cbn [p_ctx p_loop p_globals] in *.
-  assert (Hwl : wf L (p_globals ps1 ++ []) (d_decl (p_ctx ps1)) (mk_bstate (p_ctx ps1) [] (mk_acc (p_labels ps1) [] false))).
-  { pose proof (wf_child L [] [] _ (d_promo (p_ctx ps1)) (mk_acc (p_labels ps1) [] false) Hw1) as H.
-    eapply wf_same_ctx; [exact H | reflexivity | reflexivity | reflexivity]. }
+  cbn [p_ctx p_loop p_globals] in *. rewrite Hl1. cbn [app].
+  (* the body of the main loop declares into the globals, exactly like a statement at column 0 *)
+  assert (Hwl : wf L [] [] (mk_bstate (p_ctx ps1) (p_globals ps1) (mk_acc (p_labels ps1) [] false))) by exact Hw1.
   destruct (proj1 (proj2 (model_keeps_wf fenv (call_dyn C) C [] [] nofun (dyn_call_ok C))) main L _ _ _ _ _ _ Hnf1 Hwl Hgm E2)
     as (_ & Hw2 & _).
-  assert (HD : forall x t, tlookup x L = Some t -> tlookup x (st_decls st2 ++ p_globals ps1) = Some (cpp_type t)).
+  assert (HD : forall x t, tlookup x L = Some t -> tlookup x (st_decls st2) = Some (cpp_type t)).
   { intros x t Ht. destruct (all_labelled_spec _ _ x t Hall Ht) as [u Hu].
     destruct (wf_typ _ _ _ _ Hw2 x u Hu) as (t0 & HL0 & _ & Hd0). rewrite Ht in HL0. inversion HL0; subst t0.
     rewrite app_nil_r in Hd0. exact Hd0. }
@@ -1434,7 +1433,7 @@ Proof.
   destruct (exec_block orc [] (block_of pre)) as [[[[o1 r1] t1] b1]|] eqn:Ep; [|discriminate].
   assert (Hrho0 : env_lab L []) by (intros x v H; discriminate H).
   destruct (Hsem1 _ _ _ _ _ _ Hrho0 Ep) as [Hr1 He1].
-  assert (He1' : Forall (ev_decl (st_decls st2 ++ p_globals ps1)) t1).
+  assert (He1' : Forall (ev_decl (st_decls st2)) t1).
   { eapply Forall_impl; [|exact He1]. intro e. apply ev_lab_decl. exact HD. }
   destruct b1.
   - inversion Hex; subst. exact He1'.
@@ -1448,6 +1447,28 @@ Proof.
         as [H1 H2]. split; [exact H1|]. eapply Forall_impl; [|exact H2]. intros e He. eexists; exact He. }
     inversion Hex; subst. apply Forall_app. split; [exact He1'|].
     eapply Forall_impl; [|exact He3]. intro e. apply ev_lab_decl. exact HD.
+Qed.
+
+(* no name is a local of loop(): whatever the items, the declarations of the main-loop body go to the globals *)
+Lemma run_item_loop C ps it ps1 : run_item C ps it = Some ps1 -> p_loop ps1 = p_loop ps.
+Proof.
+  destruct it as [s|name src|b]; cbn [run_item]; intro H; [destruct s| |];
+    repeat match type of H with
+           | match ?X with _ => _ end = _ => destruct X as [[? ?]|] eqn:?; try discriminate
+           | (if ?X then _ else _) = _ => destruct X; try discriminate
+           end; inversion H; reflexivity.
+Qed.
+
+Lemma run_items_no_loop_locals C its ps : run_items C its = Some ps -> p_loop ps = [].
+Proof.
+  unfold run_items.
+  assert (G : forall l acc, fold_left (fun acc0 it => match acc0 with None => None | Some ps0 => run_item C ps0 it end) l acc = Some ps ->
+              exists ps0, acc = Some ps0 /\ p_loop ps = p_loop ps0).
+  { induction l as [|it r IH]; intros acc H; cbn [fold_left] in H.
+    - exists ps. split; [exact H|reflexivity].
+    - destruct (IH _ H) as (ps1 & E & Hl). destruct acc as [ps0|]; [|discriminate].
+      exists ps0. split; [reflexivity|]. rewrite Hl. eapply run_item_loop; exact E. }
+  intro H. destruct (G _ _ H) as (ps0 & E & Hl). inversion E; subst ps0. exact Hl.
 Qed.
 
 (* ------------------------------------------------------------------ function bodies *)
@@ -1552,8 +1573,8 @@ Qed.
 Lemma demo_script_nonvacuous :
   script_guard None demo_pre demo_main = true /\
   (exists ps, run_items None (script_items demo_pre demo_main) = Some ps /\
-              p_globals ps = [(w_a, CInt); (w_x, CFloat); (w_k, CInt); (w_y, CFloat); (w_z, CInt)] /\
-              p_loop ps = [(w_r, CInt); (w_w, CFloat)]) /\
+              p_globals ps = [(w_a, CInt); (w_x, CFloat); (w_k, CInt); (w_y, CFloat); (w_z, CInt); (w_r, CInt); (w_w, CFloat)] /\
+              p_loop ps = []) /\
   (exists rho tr, exec_prog demo_oracle demo_pre demo_main = Ok ([], rho, tr, false) /\
                   In (TAssign w_y (VFloat (17 # 2))) tr /\ In (TAssign w_w (VFloat 2)) tr /\ In (TLoopVar w_i (VInt 1)) tr).
 Proof.
